@@ -35,6 +35,11 @@ def cases(draw):
     sp = draw(gen_nets.specs(min_ops=2))
     # incl. the model's own 0/0 (no flow into a merge): both networks must then agree on NaN as well
     state = draw(gen_nets.states(sp, zero_bias=draw(st.booleans()), allow_singular=True))
+    merges = [n["id"] for n in sp["nodes"] if len(S.in_links(sp, n["id"])) >= 2]
+    if merges and draw(st.integers(0, 2)) == 0:
+        # no flow at all into one merge node (speeds stay different): the model's 0/0; order must still not matter
+        for l in S.in_links(sp, draw(st.sampled_from(merges))):
+            state[l["id"]]["rho"][-1] = 0.0
     tw = {
         "plan": draw(gen_nets.plans(sp["nodes"], sp["links"], sp["origins"], sp["dests"])),
         "links": list(draw(st.permutations(range(len(sp["links"]))))),
@@ -104,7 +109,7 @@ def check_case(case, ctx):
         b = run(ctx, twin, state, c, "twin")
         if crashed(a) or crashed(b):
             continue
-        bad, fin = refmodel.compare_pair(b, a, scales)
+        bad, fin = refmodel.compare_pair(b, a, scales, fallback=True)
         finite &= fin
         for (i, var, k, x, y, sc, why) in bad:
             l = next((l for l in sp["links"] if l["id"] == i), None)
